@@ -59,6 +59,12 @@ ERR_SNIPPETS = [
     "def _two2(x, y):\n  return (x.foo, y.bar, x.baz)\n_two2(1, 's')\n_two2('s', 1)\n_two2(None, 2.5)",
     "def _dup(x, y):\n  return x.foo + x.bar\n_rd = [_dup(1, 'a'), _dup(1, 2.0)]\n_dup(1, None)\n_dup(1, [1])",
     "def _chain(c):\n  if c == 0:\n    x = 1\n  elif c == 1:\n    x = 's'\n  elif c == 2:\n    x = 2.0\n  elif c == 3:\n    x = b'b'\n  elif c == 4:\n    x = [1]\n  elif c == 5:\n    x = (1,)\n  elif c == 6:\n    x = {1}\n  else:\n    x = None\n  y = x\n  return y.attr0",
+    # TypeVars declared in class scope only, one name with different bounds
+    "from typing import TypeVar\nclass _IB:\n  T = TypeVar('T', bound=int)\n  def ident(self, x: T) -> T:\n    return x\nclass _SB:\n  T = TypeVar('T', bound=str)\n  def ident(self, x: T) -> T:\n    return x\nclass _BB:\n  T = TypeVar('T', bound=bytes)\n  def ident(self, x: T) -> T:\n    return x",
+    # class attributes holding instances of classes that only define __call__
+    "class _Hd:\n  def __call__(self, x):\n    return x\nclass _Wg:\n  on_click = _Hd()\n  on_key = _Hd()\n  def fire(self):\n    return self.on_click(1)\n_wg = _Wg().fire()",
+    # messages listing several unknown directive names
+    "x_dir = 1  # pytype: disable=zeta-error,alpha-error,mid-error,beta-error\n# pytype: features=zeta-feature,alpha-feature,mid-feature\n# pytype: pragma=zeta-pragma,alpha-pragma,mid-pragma",
     "(1).nonsense", "_u = 1 + 's'", "len()", "undefined_zz",
                 "_t = ((1).aa, (2).bb)", "_v = ((1).aa, len())",
                 "def _br() -> int:\n  return 's'", "_am: int = 's'",
